@@ -326,6 +326,9 @@ func main() {
 			if rule.EmptyPct == 0 {
 				rule.EmptyPct = r.EmptyPct
 			}
+			if rule.Len == 0 {
+				rule.Len = r.Len
+			}
 			if rule.Threads == 0 {
 				rule.Threads = r.Threads
 			}
@@ -341,6 +344,7 @@ func main() {
 		}
 	}
 	spec.EmptyPct = rule.EmptyPct
+	spec.ForceLen = rule.Len
 	if rule.Bools != "" {
 		b := rule.Bools == "true"
 		spec.ForceBool = &b
